@@ -93,3 +93,32 @@ package internal
 //@   ensures#unknown !isRemote(g.templateName) && !(g.templateName in styleTemplates) ==> err != nil
 //@   ensures#cache err == nil ==> CacheInv(g.remoteTemplateCache)
 //@   assigns g.remoteTemplateCache, fields(RemoteTemplate), fresh
+
+// ---- go/types facts (assumed, listed in the evidence) ---------------------------------------------
+//@ axiom func_type_is_signature: forall f *types.Func :: dyn(f.Type()) == tagof(*types.Signature)
+//@ axiom tuple_at_nonnil: forall t *types.Tuple, i int :: 0 <= i && i < t.Len() ==> t.At(i) != nil
+
+// ---- C02 / C13 / C14: the data model of one method --------------------------------------------------
+//   sigOf: the method's signature; keyPath/keyName: the (package path, name) under which replace-type is looked up:
+//   exactly the named (or alias) type of the variable itself, nothing for composite types.
+//@ define sigOf(f *types.Func) *types.Signature = unbox(*types.Signature, f.Type())
+//@ define keyPath(t types.Type) string = dyn(t) == tagof(*types.Named) ? (unbox(*types.Named, t).Obj().Pkg() != nil ? unbox(*types.Named, t).Obj().Pkg().Path() : "")
+//@      : (dyn(t) == tagof(*types.Alias) ? (unbox(*types.Alias, t).Obj().Pkg() != nil ? unbox(*types.Alias, t).Obj().Pkg().Path() : "") : "")
+//@ define keyName(t types.Type) string = dyn(t) == tagof(*types.Named) ? unbox(*types.Named, t).Obj().Name() : (dyn(t) == tagof(*types.Alias) ? unbox(*types.Alias, t).Obj().Name() : "")
+//@ define repl(c *config.Config, p string, n string) *config.ReplaceType = ((p in c.ReplaceType) && (n in c.ReplaceType[p])) ? c.ReplaceType[p][n] : nil
+
+//@ func (*TemplateGenerator).methodData props=C02,C13,C14
+//@   requires g.registry != nil && allocated(g.registry) && RegInv(g.registry) && method != nil && ifaceConfig != nil
+//@   site#param AddVar@0: $1 == sigOf(method).Params().At(j) && $2 == "" && $3 == repl(ifaceConfig, keyPath($1.Type()), keyName($1.Type()))
+//@   site#result AddVar@1: $1 == sigOf(method).Results().At(j) && $2 == "" && $3 == repl(ifaceConfig, keyPath($1.Type()), keyName($1.Type()))
+//@   site#samescope AddVar: $recv == methodScope
+//@   ensures#name err == nil ==> result.Name == method.Name() && result.Scope != nil
+//@   ensures#counts err == nil ==> len(result.Params) == sigOf(method).Params().Len() && len(result.Returns) == sigOf(method).Results().Len()
+//@   ensures#params err == nil ==> (forall k int :: 0 <= k && k < len(result.Params) ==> result.Params[k].Var != nil && result.Params[k].Var.vr == sigOf(method).Params().At(k)
+//@         && result.Params[k].Variadic == (sigOf(method).Variadic() && k == len(result.Params) - 1))
+//@   ensures#returns err == nil ==> (forall k int :: 0 <= k && k < len(result.Returns) ==> result.Returns[k].Var != nil && result.Returns[k].Var.vr == sigOf(method).Results().At(k) && !result.Returns[k].Variadic)
+//@   loop 0: invariant 0 <= j && j <= len(params) && len(params) == sigOf(method).Params().Len() && methodScope != nil && ScopeOK(methodScope)
+//@   loop 0: invariant#filled forall k int :: 0 <= k && k < j ==> params[k].Var != nil && params[k].Var.vr == sigOf(method).Params().At(k) && params[k].Variadic == (sigOf(method).Variadic() && k == len(params) - 1)
+//@   loop 2: invariant 0 <= j && j <= len(returns) && len(returns) == sigOf(method).Results().Len() && len(params) == sigOf(method).Params().Len() && methodScope != nil && ScopeOK(methodScope)
+//@   loop 2: invariant#filled forall k int :: 0 <= k && k < j ==> returns[k].Var != nil && returns[k].Var.vr == sigOf(method).Results().At(k) && !returns[k].Variadic
+//@   loop 2: invariant#params forall k int :: 0 <= k && k < len(params) ==> params[k].Var != nil && params[k].Var.vr == sigOf(method).Params().At(k) && params[k].Variadic == (sigOf(method).Variadic() && k == len(params) - 1)
